@@ -181,7 +181,29 @@ func TestC13Hostile(t *testing.T) {
 		select {
 		case res = <-done:
 		case <-time.After(20 * time.Second):
-			c.Fatalf("C13: handler did not return within 20 s on input %x (stream=%v)", input, stream)
+			// a starved machine can hold a goroutine up for long: confirm on a fresh
+			// node, with a longer budget, before calling it a hang
+			c.Class("timeout-confirm-run")
+			n2, _ := victim()
+			done2 := make(chan struct{})
+			go func() {
+				defer func() { _ = recover(); close(done2) }()
+				if stream {
+					_, _ = n2.HandleStreamBytes(input)
+				} else {
+					_ = n2.HandlePacket(input)
+				}
+			}()
+			select {
+			case <-done2:
+				select {
+				case res = <-done:
+				case <-time.After(60 * time.Second):
+					c.Fatalf("C13: handler did not return within 80 s on input %x (stream=%v) although a second run of the same input returned", input, stream)
+				}
+			case <-time.After(120 * time.Second):
+				c.Fatalf("C13: handler did not return (20 s, then 120 s on a fresh node) on input %x (stream=%v)", input, stream)
+			}
 		}
 		if res.panic != "" {
 			c.Fatalf("C13: handler panicked on input %x (stream=%v): %s", input, stream, res.panic)
